@@ -2142,3 +2142,107 @@ def _b64_encode(I, info, args):
         import base64
         return StrV(base64.b64encode(s.s.encode('utf8')).decode('ascii'))
     return StrV(B64(s.z()))
+
+
+# ---------------------------------------------------------------- chars / String building (rnd_string)
+
+@path(('str', 'chars'))
+def _str_chars(I, info, args):
+    s = as_str(I, args[0])
+    if not s.concrete():
+        raise Unsupported('symbolic str::chars')
+    return iter_values(I, [ord(c) for c in s.s])
+
+
+@path(('String', 'with_capacity'), ('String', 'new'))
+def _string_new(I, info, args):
+    return StrV('')
+
+
+def char_to_str(c):
+    if isinstance(c, int):
+        return StrV(chr(c))
+    return StrV(z3.StrFromCode(c if z3.is_int(c) else z3.BV2Int(c)))
+
+
+@path(('String', 'push'))
+def _string_push(I, info, args):
+    p = args[0]
+    cur = load(p)
+    I.ctx.notes.setdefault('pushed_chars', []).append(args[1])
+    I.store(p.cell, p.path, str_concat([cur, char_to_str(args[1])]))
+    return UNIT
+
+
+@path(('String', 'push_str'))
+def _string_push_str(I, info, args):
+    p = args[0]
+    cur = load(p)
+    I.store(p.cell, p.path, str_concat([cur, as_str(I, args[1])]))
+    return UNIT
+
+
+@path(('str', 'to_uppercase'), ('str', 'to_lowercase'), ('String', 'to_lowercase'), ('String', 'to_uppercase'))
+def _str_case(I, info, args):
+    s = as_str(I, args[0])
+    if not s.concrete():
+        raise Unsupported('symbolic case conversion')
+    return StrV(s.s.upper() if info['segs'][-1] == 'to_uppercase' else s.s.lower())
+
+
+def _get_unchecked_sym(I, info, args):
+    items = I.vec_items(args[0])
+    idx = args[1]
+    if isinstance(idx, int):
+        q = args[0]
+        while isinstance(load(q), Ptr):
+            q = load(q)
+        return Ptr(q.cell, q.path + (('i', idx),))
+    # symbolic index into a concrete table: the element as an if-then-else term
+    zi = idx if z3.is_int(idx) else z3.BV2Int(idx)
+    t = z3.IntVal(items[-1])
+    for k in range(len(items) - 2, -1, -1):
+        t = z3.If(zi == k, z3.IntVal(items[k]), t)
+    return Ptr(Cell(t))
+
+
+PATH[('slice', 'get_unchecked')] = _get_unchecked_sym
+
+
+# ---------------------------------------------------------------- integer operator traits (through references)
+
+def _num(v):
+    v = deref(v)
+    if isinstance(v, (int, bool)) or is_sym(v):
+        return v
+    raise Unsupported('arithmetic on %r' % (v,))
+
+
+@trait('Add', 'add')
+def _op_add(I, info, args):
+    a, b = _num(args[0]), _num(args[1])
+    if isinstance(a, int) and isinstance(b, int):
+        r = a + b
+        if 'u32' in info['self'] and r >= (1 << 32):
+            raise Panic('add-overflow', '/'.join(I.stack[-2:]))
+        return r
+    a, b = I.z_pair(a, b)
+    return a + b
+
+
+@trait('Sub', 'sub')
+def _op_sub(I, info, args):
+    a, b = _num(args[0]), _num(args[1])
+    if isinstance(a, int) and isinstance(b, int):
+        if a - b < 0 and info['self'].lstrip('&').startswith('u'):
+            raise Panic('sub-overflow', '/'.join(I.stack[-2:]))
+        return a - b
+    a, b = I.z_pair(a, b)
+    return a - b
+
+
+@trait('AddAssign', 'add_assign')
+def _op_add_assign(I, info, args):
+    p = args[0]
+    I.store(p.cell, p.path, _op_add(I, info, [load(p), args[1]]))
+    return UNIT
